@@ -17,6 +17,7 @@ const (
 	KBV
 	KF64
 	KInt
+	KReal
 )
 
 type Sort struct {
@@ -28,6 +29,7 @@ var (
 	Bool = Sort{K: KBool}
 	F64  = Sort{K: KF64}
 	Int  = Sort{K: KInt}
+	Real = Sort{K: KReal}
 )
 
 func BV(w int) Sort { return Sort{K: KBV, W: w} }
@@ -40,6 +42,8 @@ func (s Sort) String() string {
 		return fmt.Sprintf("(_ BitVec %d)", s.W)
 	case KInt:
 		return "Int"
+	case KReal:
+		return "Real"
 	}
 	return "F64"
 }
@@ -105,6 +109,7 @@ const (
 	OFFromKey // int -> f64
 	OILt
 	OILe
+	ONative // SMT-LIB operator Name applied to Args (real arithmetic, conversions)
 )
 
 var opNames = map[Op]string{
@@ -114,7 +119,7 @@ var opNames = map[Op]string{
 	OULt: "bvult", OULe: "bvule", OSLt: "bvslt", OSLe: "bvsle", OConcat: "concat", OExtract: "extract", OZExt: "zext", OSExt: "sext",
 	OFFromBits: "f.frombits", OFGrid: "f.grid", OFBits: "f.bits", OFAdd: "f.add", OFSub: "f.sub", OFMul: "f.mul", OFDiv: "f.div",
 	OFNeg: "f.neg", OFAbs: "f.abs", OFSqrt: "f.sqrt", OFLt: "f.lt", OFLe: "f.le", OFEq: "f.eq", OFIsNaN: "f.isnan", OFIsInf: "f.isinf",
-	OFIsNeg: "f.isneg", OFFromSInt: "f.fromsint", OFFromUInt: "f.fromuint", OFToSInt: "f.tosint", OFNextUp: "f.nextup", OFNextDown: "f.nextdown", OUF: "uf", OFFromKey: "f.fromkey", OILt: "<", OILe: "<=",
+	OFIsNeg: "f.isneg", OFFromSInt: "f.fromsint", OFFromUInt: "f.fromuint", OFToSInt: "f.tosint", OFNextUp: "f.nextup", OFNextDown: "f.nextdown", OUF: "uf", OFFromKey: "f.fromkey", OILt: "<", OILe: "<=", ONative: "native",
 }
 
 func (o Op) String() string { return opNames[o] }
@@ -257,8 +262,19 @@ func (c *Ctx) BoolC(b bool) *Term {
 func (c *Ctx) True() *Term  { return c.BoolC(true) }
 func (c *Ctx) False() *Term { return c.BoolC(false) }
 
-func (c *Ctx) BVC(w int, v uint64) *Term { return c.mk(OConst, BV(w), nil, v&mask(w), "", 0, 0) }
-func (c *Ctx) IntC(w int, v int64) *Term { return c.BVC(w, uint64(v)) }
+func (c *Ctx) BVC(w int, v uint64) *Term {
+	if w > 64 {
+		// wide constants are built by extension so that printing stays exact
+		return c.mk(OZExt, BV(w), []*Term{c.mk(OConst, BV(64), nil, v, "", 0, 0)}, 0, "", 0, 0)
+	}
+	return c.mk(OConst, BV(w), nil, v&mask(w), "", 0, 0)
+}
+func (c *Ctx) IntC(w int, v int64) *Term {
+	if w > 64 {
+		return c.mk(OSExt, BV(w), []*Term{c.mk(OConst, BV(64), nil, uint64(v), "", 0, 0)}, 0, "", 0, 0)
+	}
+	return c.BVC(w, uint64(v))
+}
 func (c *Ctx) FC(f float64) *Term        { return c.mk(OConst, F64, nil, math.Float64bits(f), "", 0, 0) }
 func (c *Ctx) FCBits(b uint64) *Term     { return c.mk(OConst, F64, nil, b, "", 0, 0) }
 
@@ -358,6 +374,13 @@ func (c *Ctx) keyIsZero(k *Term) *Term {
 		return c.Ite(k.Args[0], c.keyIsZero(k.Args[1]), c.keyIsZero(k.Args[2]))
 	}
 	return c.Or(c.Eq(k, c.IntConst(0)), c.Eq(k, c.IntConst(-1)))
+}
+
+// Native builds an application of an SMT-LIB operator that the term layer
+// does not interpret (used by the real-arithmetic float mode). A nullary
+// application prints as the bare name (a numeral).
+func (c *Ctx) Native(name string, s Sort, args ...*Term) *Term {
+	return c.mk(ONative, s, args, 0, name, 0, 0)
 }
 
 // ---- booleans ----
@@ -517,7 +540,7 @@ func (c *Ctx) bin(op Op, a, b *Term) *Term {
 		panic(fmt.Sprintf("%v: sort mismatch %v %v", op, a.Sort, b.Sort))
 	}
 	w := a.Sort.W
-	if a.IsConst() && b.IsConst() {
+	if a.IsConst() && b.IsConst() && w <= 64 {
 		x, y := a.U, b.U
 		sx, sy := sext(x, w), sext(y, w)
 		var r uint64
@@ -649,7 +672,7 @@ func (c *Ctx) LShr(a, b *Term) *Term { return c.bin(OLShr, a, b) }
 func (c *Ctx) AShr(a, b *Term) *Term { return c.bin(OAShr, a, b) }
 
 func (c *Ctx) Neg(a *Term) *Term {
-	if a.IsConst() {
+	if a.IsConst() && a.Sort.W <= 64 {
 		return c.BVC(a.Sort.W, -a.U)
 	}
 	return c.mk(ONeg, a.Sort, []*Term{a}, 0, "", 0, 0)
@@ -677,6 +700,12 @@ func (c *Ctx) cmp(op Op, a, b *Term) *Term {
 		panic(fmt.Sprintf("%v: sort mismatch %v %v", op, a.Sort, b.Sort))
 	}
 	w := a.Sort.W
+	if w > 64 {
+		if a == b {
+			return c.BoolC(op == OULe || op == OSLe)
+		}
+		return c.mk(op, Bool, []*Term{a, b}, 0, "", 0, 0)
+	}
 	if b.IsConst() && a.Op == OIte && constLeafIte(a, 0) {
 		return c.Ite(a.Args[0], c.cmp(op, a.Args[1], b), c.cmp(op, a.Args[2], b))
 	}
@@ -760,10 +789,10 @@ func (c *Ctx) ZExt(a *Term, w int) *Term {
 	if w < a.Sort.W {
 		return c.Extract(a, w-1, 0)
 	}
-	if a.IsConst() {
+	if a.IsConst() && w <= 64 {
 		return c.BVC(w, a.U)
 	}
-	if a.Op == OIte && constLeafIte(a, 0) {
+	if a.Op == OIte && constLeafIte(a, 0) && w <= 64 {
 		return c.Ite(a.Args[0], c.ZExt(a.Args[1], w), c.ZExt(a.Args[2], w))
 	}
 	return c.mk(OZExt, BV(w), []*Term{a}, 0, "", 0, 0)
@@ -776,7 +805,7 @@ func (c *Ctx) SExt(a *Term, w int) *Term {
 	if w < a.Sort.W {
 		return c.Extract(a, w-1, 0)
 	}
-	if a.IsConst() {
+	if a.IsConst() && w <= 64 {
 		return c.BVC(w, uint64(sext(a.U, a.Sort.W)))
 	}
 	return c.mk(OSExt, BV(w), []*Term{a}, 0, "", 0, 0)
